@@ -1,7 +1,7 @@
 """C13 — transaction JSON numbers mean exactly the integer written or are rejected."""
 import json
 
-from .. import txgen
+from .. import tdcli, txgen
 from ..gen import both, boundary_u256, lib_case, rand_bytes, VOCAB_UNITS
 from ..ref import jsonnum
 from ..ref import tx as reftx
@@ -9,17 +9,17 @@ from ..run.core import V
 
 ID = "C13"
 LEVEL = "exploration"
-NEEDS = {"lib": ["dev", "release"]}
+NEEDS = {"lib": ["dev", "release"], "cli": ["dev", "release"]}
 RULE = ("tx.process(json) events where exactly one field carries a hostile spelling; the spelling is classified from its text "
         "alone (exact rational arithmetic) as must-accept / must-reject / unspecified; accepted values are compared through the "
         "unsigned payload with the reference encoding of the exact integer; all spellings of one integer must give identical "
-        "payloads; byte, address and storage-key fields with malformed hex; distinct = distinct documents; non-trivial = "
+        "payloads; byte, address and storage-key fields with malformed hex; a fee-market field that is present and not a number next to the fields of an older kind; a sample of the same documents through `hash transaction` (printed hash = Keccak-256 of the reference payload) and `sign transaction` [--signature-only] (accept / reject); distinct = distinct documents; non-trivial = "
         "classification was must-accept or must-reject (unspecified spellings are only checked for exactness when accepted)")
 REQUIRED = ["accept-json-int", "accept-json-float", "accept-dec-string", "accept-hex-string", "spellings-identical", "reject-negative-number",
             "reject-negative-string", "reject-fraction", "reject-above-range-number", "reject-range-string", "reject-empty-string",
             "reject-not-a-number", "reject-wrong-json-kind", "reject-data-no-prefix", "reject-data-odd", "reject-data-nonhex",
             "reject-address-length", "reject-storage-key-length", "either-float>=2^53", "either-int>=2^64", "accept-near-2^53-float",
-            "accept-2^256-1", "accept-address-20", "accept-storage-key-32", "accept-data-uppercase", "reject-bad-fee-field-next-to-older-kind-fields"]
+            "accept-2^256-1", "accept-address-20", "accept-storage-key-32", "accept-data-uppercase", "reject-bad-fee-field-next-to-older-kind-fields", "cli-tx-commands-judged"]
 U256_MAX = 2**256 - 1
 C_MAX = (2**256 - 37) // 2
 
@@ -163,12 +163,14 @@ def judge_bytes(case, obs):
 
 
 JUDGES = {"num": judge_num, "same": judge_same, "bytes": judge_bytes}
+JUDGES["cli-tx"] = tdcli.make_tx_judge(ID, JUDGES)
 
 
 def shards(tier, seed):
     T = tier == "thorough"
     return [{"name": "num-%d" % i, "count": 30000 if T else 500, "idx": i} for i in range(12)] + \
-           [{"name": "bytes-%d" % i, "count": 30000 if T else 500} for i in range(4)]
+           [{"name": "bytes-%d" % i, "count": 30000 if T else 500} for i in range(4)] + \
+           [{"name": "cli-surface-%d" % i, "part": i} for i in range(8)]
 
 
 def _small_tx(rng, kind=None):
@@ -240,6 +242,13 @@ def _rand_token(rng):
 
 def gen(shard, rng, tier):
     name = shard["name"]
+    if name.startswith("cli-surface"):
+        # a sample of the same documents through `hash transaction`, `sign transaction` and `sign transaction --signature-only`
+        def lib_cases():
+            for sub in ({"name": "num-0", "idx": shard["part"] % 12, "count": 1500 if tier == "thorough" else 150}, {"name": "bytes-0", "count": 1000 if tier == "thorough" else 100}):
+                yield from gen(sub, rng, tier)
+        yield from tdcli.tx_cli_cases(lib_cases(), every=2, limit=4000 if tier == "thorough" else 480, part=shard["part"], parts=8)
+        return
     if name.startswith("num-"):
         # the fixed lists are swept completely (each entry x a random field), then random tokens
         fixed = NEG_NUMBERS + FRACTIONS + BELOW_HALF_ULP + BIG_FLOATS + BIG_INTS + NEAR_53 + KINDS_BAD + ZERO_FORMS + ESCAPED_STRINGS + \
